@@ -168,7 +168,10 @@ MainTx == {"cA", "cB", "cC", "cAx", "cA2", "uA1", "uAx", "uAxB", "uAkid", "uA2",
            "dB", "uAbBd", "uBc", "dC", "uAbBc", "uBa", "uAbBa", "dA", "uAr", "uAnf", "uB2", "uB3", "uAbK2"}
 QuickTx == {"cA", "cB", "cAx", "cA2", "uA1", "uAx", "uAxB", "uAkid", "uA2", "uA3", "uAk2", "uAk2o", "uAb", "uAbB", "uAbA", "dB",
             "uAbBd", "dA", "uAr", "uAnf"}
+
 ChainTx == {"h1", "h2", "h3", "h4", "h5", "h6", "h7", "g1", "g1s", "g2", "g3", "g4", "h7d"}
+
+AllTx == MainTx \cup ChainTx
 
 \* clocks respect the prevs relation (premise of ConflictResolvedByJoin), prevs name known transactions
 ASSUME \A e \in DOMAIN MCT : \A p \in Range(MCT[e].prevs) : p \in DOMAIN MCT /\ MCT[p].lc < MCT[e].lc
@@ -184,6 +187,7 @@ EmitOrder == (Hist /\ StoreDone) => PrintT(ToJson([sc |-> sc, steps |-> hist,
 EmitState == (Hist /\ Mode = "ambassador") =>
                 PrintT(ToJson([path |-> hist,
                                verdicts |-> [t \in TxU |-> Verdict(t, "none")],
+                               sigok |-> [t \in TxU |-> SignatureOK(t)],
                                authorised |-> [t \in TxU |-> RefAuthorised(t)]]))
 PathBound == Len(hist) <= 12
 =============================================================================
